@@ -21,12 +21,6 @@ def make_worker(want_c01, want_c02, two, opts=(), skip_syntax=(), extra_sig=None
             for v, d in corpus.case_values(b, c, two=two and c.family in ('S1', 'S2', 'S4'), big=big):
                 fe = features.features(b.mod, b.mod.types[c.name], v)
                 mask = []
-                # types without a PER/OER codec (known findings KF-SET-no-per-oer, KF-ObjectDescriptor-no-oer): the nested
-                # NULL call would kill the process and hide the DER/XER observations of the same value
-                if 'has_SET' in fe:
-                    mask += ['uper', 'oer']
-                elif 'k:ObjectDescriptor' in fe:
-                    mask += ['oer']
                 lines.append('%s %s %s%s' % ('rtl' if big else 'rt', c.name, d.hex(), (' ' + ','.join(mask)) if mask else ''))
                 meta.append((c, v, d))
         res = common.run_driver(b.exe, lines, watchdog=30)
